@@ -126,8 +126,12 @@ def run_form(name, assume, cxx=False, seed=3):
     if cxx and summary["python cse=True"] == "ok":
         from replay import cxxcompare
 
+        import warnings
+
         for cse in (True, False):
-            pr, _ = cxxcompare.compare(sc, cse=cse, seed=seed)
+            with warnings.catch_warnings():
+                warnings.simplefilter("ignore")
+                pr, _ = cxxcompare.compare(sc, cse=cse, seed=seed)
             loud = bool(pr) and ("raised" in pr[0] or "compil" in pr[0])
             summary[f"c++ cse={cse}"] = "ok" if not pr else ("refused" if loud else "differs")
             if pr and not loud:
